@@ -48,6 +48,10 @@ def linear_guard(ts, priors, mu, eps):
                 bp.outside_pass(standardize=True)
     except FloatingPointError as e:
         return False, "fp-exception:" + str(e)[:40]
+    except BaseException as e:  # noqa: BLE001   (tsdate rejects the input: data, not a C12 matter)
+        if isinstance(e, (KeyboardInterrupt, MemoryError)):
+            raise
+        return False, f"rejected:{type(e).__name__}:{str(e)[:40]}"
     vals = np.concatenate([bp.inside.grid_data.ravel(), bp.outside.grid_data.ravel(),
                            np.array([bp.denominator[u] for u in pr.nonfixed_nodes])] +
                           [np.asarray(v).ravel() for v in lik.unfixed_likelihood_cache.values()])
@@ -225,6 +229,10 @@ def oracle(ctx, n_cases, stream, res, stats, recs=None):
         ok, why = linear_guard(ts, pr, mu, eps)
         if not ok:
             stats["guard_tripped"][why] = stats["guard_tripped"].get(why, 0) + 1
+            if why.startswith("rejected:"):
+                # tsdate rejects the input in linear space: the only C12 question is whether log space agrees
+                compare_spaces(ts, pr, mu, eps, "inside_outside", {}, make_replay(ts, pr, mu, eps, "inside_outside", {}),
+                               res, stats)
             continue
         method = str(rng.choice(["inside_outside", "inside_outside", "maximization"]))
         kw = {}
